@@ -252,6 +252,70 @@ def parse_line_unit(isa):
     return unit
 
 
+def parse_instruction_unit(isa):
+    """P: parse_instruction (real code) for EVERY number of operands the grammar can deliver (0..5 AArch64, 0..4 x86) and, on
+    AArch64, every choice of which operands resolve to a register list (members a, b): the operand list of the result is the
+    concatenation, in source order, of what process_operand returns for operand1, operand2, ... (lists spliced in place);
+    mnemonic and comment are taken from the parse result.  process_operand is abstract here (its contract: the
+    operand-post-processing units)."""
+    def unit(res):
+        files = PFILES + [PX if isa == "x86" else PA]
+        ex = Engine([REPO + "/" + f for f in files])
+        cls = "ParserX86ATT" if isa == "x86" else "ParserAArch64"
+        ex.no_init.add(cls)
+        maxops = 4 if isa == "x86" else 5
+        import itertools as it
+        combos = []
+        for k in range(maxops + 1):
+            for kinds in it.product(("single", "list") if isa != "x86" else ("single",), repeat=k):
+                for comment in (False, True):
+                    if comment and k not in (0, 2):
+                        continue
+                    combos.append((k, kinds, comment))
+        for k, kinds, comment in combos:
+            def run():
+                raw = {f"operand{i + 1}": {"tag": i} for i in range(k)}
+                raw["mnemonic"] = "mn"
+                if comment:
+                    raw["comment"] = ["some", "words"]
+                log = []
+                outs = []
+
+                def process_operand(ex_, so, a, kw):
+                    i = a[0]["tag"]
+                    v = [SObj("RegisterOperand", tag=(i, 0)), SObj("RegisterOperand", tag=(i, 1))] if kinds[i] == "list" else SObj("Operand", tag=(i,))
+                    outs.append((i, v))
+                    return v
+
+                ex.abstract["process_operand"] = process_operand
+                parser = SObj(cls, instruction_parser=Grammar("instruction", [lambda: raw], log), comment_id="comment")
+                line = OpaqueStr("the instruction")
+                r = ex.call_method(cls, "parse_instruction", parser, [line])
+                ex.extra.update(outs=outs, log=log, line=line)
+                return r
+
+            paths = ex.explore(run, [])
+
+            def post(v, p, k=k, kinds=kinds, comment=comment):
+                outs, log = p.extra["outs"], p.extra["log"]
+                if [i for i, _ in outs] != list(range(k)):
+                    return False  # every operand post-processed exactly once (order of the calls = source order)
+                want = []
+                for i, o in outs:
+                    want += o if isinstance(o, list) else [o]
+                got = v.fields["_operands"]
+                ok = isinstance(got, list) and len(got) == len(want) and all(a is b for a, b in zip(got, want))
+                ok = ok and v.fields["_mnemonic"] == "mn" and v.fields["_comment_id"] == ("some words" if comment else None)
+                ok = ok and [e for e in log if e[0] == "call"] == [("call", "instruction", p.extra["line"], True)]
+                return bool(ok)
+
+            res.add_paths(paths, post, exc_ok=lambda p: p.outcome[1] == "ParseException" and ("fail", "instruction") in p.extra.get("log", [("fail", "instruction")]),
+                          kind=f"operands={k}/{''.join(x[0] for x in kinds)}/comment={int(comment)}")
+        return res
+
+    return unit
+
+
 NUMLANG = "decimal (no leading zeros) or 0x-hex literal with optional '-', at most 5 characters"
 PFILES = ["osaca/parser/operand.py", "osaca/parser/register.py", "osaca/parser/memory.py", "osaca/parser/immediate.py", "osaca/parser/identifier.py",
           "osaca/parser/directive.py", "osaca/parser/label.py", "osaca/parser/condition.py", "osaca/parser/prefetch.py", "osaca/parser/instruction_form.py", BP]
@@ -426,6 +490,7 @@ def units_for(prop):
     return [
         Unit(f"{prop}/parse_file", parse_file_unit, "P", [(BP, "BaseParser.parse_file")]),
         Unit(f"{prop}/parse_line/classification", parse_line_unit(isa), "P", [(PX if isa == "x86" else PA, ("ParserX86ATT" if isa == "x86" else "ParserAArch64") + ".parse_line")]),
+        Unit(f"{prop}/parse_instruction/operand-order", parse_instruction_unit(isa), "P", [(PX if isa == "x86" else PA, ("ParserX86ATT" if isa == "x86" else "ParserAArch64") + ".parse_instruction")]),
     ] + ([Unit("C09/operand-post-processing", x86_mem_unit, "P", [(PX, "ParserX86ATT.process_memory_address"), (PX, "ParserX86ATT.process_immediate")])] if isa == "x86" else
          [Unit(f"C10/operand-post-processing/base={b}/index={i}", a64_mem_unit_for((b,), (i,)), "P", [(PA, "ParserAArch64.process_memory_address")])
           for b in ("x", "sp", "zr") for i in ("none", "x", "w")]) + [
